@@ -24,3 +24,18 @@ chk('C07', 'exploration',
     'property-based testing (Hypothesis), write/read round trip against an '
     'independent numpy model',
     'DESIGN.md 7 C07')
+chk('C15', 'exploration',
+    'Generated histories (1-12 opens) over a pool holding every '
+    'self-describing format under suffix and neutral names; after every '
+    'open the probe (reader class, dimensions, per-variable data digest) is '
+    'compared with an empty-history reference taken in a fresh interpreter '
+    '(fixed pool) or directly after restoring the registry (generated '
+    'netCDF files); auto-detected vs explicitly named format compared for '
+    'every file touched.',
+    'Histories are sampled (depth <=12); binary/text formats are represented '
+    'by the repository samples, netCDF and IOAPI content is generated; state '
+    'outside the reader registry that is not reset between cases would only '
+    'be seen through the fresh-interpreter references.',
+    'stateful property-based testing (Hypothesis-generated open histories) '
+    'against empty-history references',
+    'DESIGN.md 7 C15')
